@@ -6,10 +6,12 @@ package main
 import (
 	"bytes"
 	"fmt"
+	"io"
 	"os"
 	"path/filepath"
 	"regexp"
 	"strings"
+	"syscall"
 
 	"filippo.io/age"
 	"filippo.io/age/internal/stream"
@@ -226,7 +228,7 @@ func main() {
 			}
 			// ---------- success paths
 			c.Part("success-paths")
-			c.Bound("%d scenarios: encrypt {-r x25519, -r ssh-ed25519, -r ssh-rsa, -R file, -e -i, two -r} and decrypt {-i x25519, -i ssh-ed25519 key file, -i ssh-rsa key file, passphrase (pty), encrypted identity file (pty)}, -p (pty) x armor x sizes %v x input {file, stdin} x output {stdout, -o new file, -o existing file}", len(scs), sizes)
+			c.Bound("%d scenarios: encrypt {-r x25519, -r ssh-ed25519, -r ssh-rsa, -R file, -e -i, two -r} and decrypt {-i x25519, -i ssh-ed25519 key file, -i ssh-rsa key file, passphrase (pty), encrypted identity file (pty)}, -p (pty) x armor x sizes %v x input {file, stdin} x output {stdout, -o new file, -o existing file, -o /dev/null, -o /dev/stdout, -o FIFO}", len(scs), sizes)
 			var fullOut []byte
 			for _, om := range []string{"stdout", "new", "existing"} {
 				id := s.name + "/" + om
@@ -269,6 +271,63 @@ func main() {
 				}
 				if c.WantSample() {
 					c.Sample(det(s, cmd, r, "output verified"))
+				}
+			}
+			// destinations that are not regular files: the complete result is delivered and the exit status is 0
+			if len(s.tty) == 0 {
+				for _, om := range []string{"dev-null", "dev-stdout", "fifo"} {
+					id := s.name + "/" + om
+					if c.Replaying() && !c.Want(id) {
+						continue
+					}
+					var cmd *cli.Cmd
+					var out []byte
+					var r cli.Result
+					switch om {
+					case "dev-null":
+						cmd = build(s, []string{"-o", "/dev/null"})
+						r = cmd.Run()
+					case "dev-stdout":
+						cmd = build(s, []string{"-o", "/dev/stdout"})
+						r = cmd.Run()
+						out = r.Stdout
+					case "fifo":
+						fifo := filepath.Join(work, "out.fifo")
+						os.Remove(fifo)
+						if err := syscall.Mkfifo(fifo, 0600); err != nil {
+							panic(err)
+						}
+						got := make(chan []byte, 1)
+						go func() {
+							f, err := os.OpenFile(fifo, os.O_RDONLY, 0)
+							if err != nil {
+								got <- nil
+								return
+							}
+							b, _ := io.ReadAll(f)
+							f.Close()
+							got <- b
+						}()
+						cmd = build(s, []string{"-o", "out.fifo"})
+						r = cmd.Run()
+						// release the reader if age never opened the FIFO
+						if w, err := os.OpenFile(fifo, os.O_WRONLY|syscall.O_NONBLOCK, 0); err == nil {
+							w.Close()
+						}
+						out = <-got
+						os.Remove(fifo)
+					}
+					c.Eval(1)
+					c.DistinctOnce(ev.HashStr(id))
+					if r.Exit != 0 {
+						c.Fail("complete-operation-exits-nonzero", id, "un-faulted run to a destination that is not a regular file fails", det(s, cmd, r, ""))
+						continue
+					}
+					if om != "dev-null" {
+						if msg := verify(s, out); msg != "" {
+							c.Fail("exit-0-without-complete-result", id, "exit status 0 but "+msg, det(s, cmd, r, ""))
+						}
+					}
 				}
 			}
 			if fullOut == nil && len(s.plain) != 0 {
@@ -370,7 +429,7 @@ func main() {
 		// ---------------------------------------------------------------- refusals at the header / payload failures
 		if c.Shard == 0 || c.NShards == 1 {
 			c.Part("decrypt-refusals")
-			c.Bound("decryption of damaged or foreign inputs {wrong identity, bit flip in own stanza / other stanza / MAC, stanza removed, truncated header, wrong passphrase (pty)}: non-zero exit, -o target absent or byte-identical with unchanged mtime; payload failures {flip in chunk 0, flip in chunk 1, truncations}: non-zero exit, output is a prefix of the plaintext")
+			c.Bound("decryption of damaged or foreign inputs {wrong identity, bit flip in own stanza / other stanza / MAC, stanza removed, truncated header, whitespace inserted before the header of a binary file, wrong passphrase (pty)}: non-zero exit, -o target absent or byte-identical with unchanged mtime; payload failures {flip in chunk 0, flip in chunk 1, truncations}: non-zero exit, output is a prefix of the plaintext")
 			good, _ := os.ReadFile(filepath.Join(work, "i-x25519.afalse.n1.age"))
 			big := mkEnc("big.age", []age.Recipient{x0.Rcpt}, 2*C+1, false)
 			bigB, _ := os.ReadFile(big)
@@ -398,6 +457,11 @@ func main() {
 				{"truncated-header", good[:len(hdr)-10], "x0.txt", true, nil, nil},
 				{"truncated-nonce", good[:len(hdr)+5], "x0.txt", true, nil, nil},
 				{"not-an-age-file", []byte("hello world\n"), "x0.txt", true, nil, nil},
+				{"space-before-header", append([]byte(" "), good...), "x0.txt", true, nil, nil},
+				{"newline-before-header", append([]byte("\n"), good...), "x0.txt", true, nil, nil},
+				{"crlf-before-header", append([]byte("\r\n"), good...), "x0.txt", true, nil, nil},
+				{"tab-before-header", append([]byte("\t"), good...), "x0.txt", true, nil, nil},
+				{"blank-lines-before-header", append([]byte("\n \n\n"), good...), "x0.txt", true, nil, nil},
 				{"flip-chunk0", mut(func(b []byte) []byte { b[len(b)-3] ^= 1; return b }), "x0.txt", false, plains[1], nil},
 				{"big-flip-chunk1", func() []byte { b := append([]byte{}, bigB...); b[ps+C+16+9] ^= 1; return b }(), "x0.txt", false, plains[2*C+1], nil},
 				{"big-truncated-mid-chunk2", bigB[:ps+2*(C+16)-5], "x0.txt", false, plains[2*C+1], nil},
@@ -458,9 +522,9 @@ func main() {
 			c.Part("same-file-spellings")
 			cwdName := filepath.Base(work)
 			spell := func(x string) []string {
-				return []string{x, "./" + x, "d/../" + x, filepath.Join(work, x), ".//" + x, "../" + cwdName + "/" + x, "d/.././" + x}
+				return []string{x, "./" + x, "d/../" + x, filepath.Join(work, x), ".//" + x, "../" + cwdName + "/" + x, "d/.././" + x, work + "/./" + x, work + "//" + x, work + "/d/../" + x}
 			}
-			c.Bound("-o naming the input, an identity file or a recipients file under 7 spellings (x, ./x, d/../x, absolute, .//x, ../cwd/x, d/.././x), encrypting and decrypting: non-zero exit and the file untouched")
+			c.Bound("-o naming the input, an identity file or a recipients file under 10 spellings (x, ./x, d/../x, absolute, .//x, ../cwd/x, d/.././x, and the absolute path with /./, // and /d/../ inside), encrypting and decrypting: non-zero exit and the file untouched")
 			type sf struct {
 				name   string
 				target string
